@@ -29,6 +29,15 @@ func VerifDir() string {
 	return "/verif"
 }
 
+// OutDir is where evidence and replay artefacts go: VerifDir, except for runs
+// against a scratch copy of the repository (mutation runs).
+func OutDir() string {
+	if d := os.Getenv("VERIF_OUT"); d != "" {
+		return d
+	}
+	return VerifDir()
+}
+
 // Violation is one property violation found by a harness.
 type Violation struct {
 	// Signature identifies the failing input class / call site / schedule
@@ -394,7 +403,7 @@ func Finish(r *Result, start time.Time) {
 		nviol++
 		code = 1
 		h := sha1.Sum([]byte(v.Signature))
-		p := filepath.Join(VerifDir(), "replays", fmt.Sprintf("%s-%s.json", r.Property, hex.EncodeToString(h[:5])))
+		p := filepath.Join(OutDir(), "replays", fmt.Sprintf("%s-%s.json", r.Property, hex.EncodeToString(h[:5])))
 		os.MkdirAll(filepath.Dir(p), 0755)
 		b, _ := json.MarshalIndent(map[string]any{
 			"property": r.Property, "signature": v.Signature, "what": v.What,
@@ -445,7 +454,7 @@ func Finish(r *Result, start time.Time) {
 		},
 	}
 	b, _ := json.MarshalIndent(ev, "", " ")
-	evp := filepath.Join(VerifDir(), "evidence", r.Property+".json")
+	evp := filepath.Join(OutDir(), "evidence", r.Property+".json")
 	os.MkdirAll(filepath.Dir(evp), 0755)
 	if err := os.WriteFile(evp, b, 0644); err != nil {
 		fmt.Printf("HARNESS-FAULT property=%s: cannot write evidence: %v\n", r.Property, err)
